@@ -883,6 +883,10 @@ class Interp:
                 return recv
             if args and isinstance(args[0], dict):
                 return ("Err", self.call_closure(args[0], [recv[1]]))
+            if e["a"] and e["a"][0].get("k") == "path" and e["a"][0]["p"].split("::")[-1] not in ("from", "into"):
+                # a function item / tuple-variant constructor, e.g. .map_err(Error::CDDLParsing)
+                r = self.on_call("fn", e["a"][0]["p"], e["a"][0], [recv[1]], None) if self.on_call is not None else NotImplemented
+                return ("Err", ("enum", e["a"][0]["p"], [recv[1]]) if r is NotImplemented else r)
             return ("Err", OPAQUE)
         if m == "ok_or_else" and isinstance(recv, tuple) and recv[0] in ("Some", "None"):
             if recv[0] == "Some":
@@ -1094,6 +1098,21 @@ class Interp:
                     return r
                 if m == "filter" and isinstance(r, bool):
                     return recv if r else ("None",)
+        if m in ("map_err", "map", "and_then", "or_else") and isinstance(recv, tuple) and recv[0] in ("Ok", "Err") and len(recv) == 2 and e["a"] \
+                and e["a"][0].get("k") == "path" and self.on_call is not None \
+                and e["a"][0]["p"].split("::")[-1] not in ("from", "into", "clone", "to_owned"):
+            # Result adaptors taking a function item (e.g. .map_err(Error::CDDLParsing))
+            hit = (m in ("map_err", "or_else") and recv[0] == "Err") or (m in ("map", "and_then") and recv[0] == "Ok")
+            if not hit:
+                return recv
+            r = self.on_call("fn", e["a"][0]["p"], e["a"][0], [recv[1]], None)
+            if r is NotImplemented:
+                r = ("enum", e["a"][0]["p"], [recv[1]])     # a tuple-variant constructor
+            if m == "map_err":
+                return ("Err", r)
+            if m == "map":
+                return ("Ok", r)
+            return r
         if m in ("is_none_or", "is_some_and") and isinstance(recv, tuple) and recv[0] in ("Some", "None") and e["a"] and e["a"][0].get("k") == "path" \
                 and recv[0] == "None":
             return m == "is_none_or"
